@@ -192,9 +192,9 @@ class C02(Check):
             lex = [x.decode('latin-1') for x in corpus.skeletons('vhdl_lang', self.seed, count=70, max_len=12)]
             ps = [Parse('chars N<=2 through the whole parser', N=2, required=req),
                   Parse('lexeme corpus, 1 symbolic char anywhere', skeletons=lex, required=req),
-                  Parse('short programs, 1 symbolic char in a window', skeletons=short, window=(w0, 10), required=req + ('design unit returned',)),
+                  Parse('short programs, 1 symbolic char in a window', skeletons=short, window=(w0, 12), required=req + ('design unit returned',)),
                   Parse('short programs cut after 1 symbolic char (last 16 positions)', skeletons=short, window=(-16, 16), truncate=True, required=req),
-                  Parse('programs, 1 symbolic char in a window', skeletons=[p for p in PROGS if len(p) > 64], window=(w0, 3), required=req)]
+                  Parse('programs, 1 symbolic char in a window', skeletons=[p for p in PROGS if len(p) > 64], window=(w0, 4), required=req)]
         else:
             from . import corpus
             lex = [x.decode('latin-1') for x in corpus.skeletons('vhdl_lang', self.seed, count=225, max_len=24)]
